@@ -112,7 +112,7 @@ def fuseInf : List Tok → List Tok
 
 /-- Names that are bound neither in `cli/reconcile.py` nor in `builtins`, and are
     no keywords (the harness asserts this at start-up). -/
-def unboundNames : List String := ["inf", "infinity", "Infinity", "nan", "x", "y", "zz", "cost"]
+def unboundNames : List String := ["inf", "infinity", "Infinity", "nan", "x", "y", "zz"]
 
 /-- Tokens the parser does not know what to do with. -/
 def Tok.foreign : Tok → Bool
